@@ -194,15 +194,19 @@ def run_harness(binary, suite, seed, count, extra=None, only=None, keep=None, ti
     for k, v in (extra or {}).items():
         cmd += ["--" + k, str(v)]
     p = subprocess.run(cmd, stdout=subprocess.PIPE, stderr=subprocess.PIPE, text=True, timeout=timeout, env=ENV)
-    cases, stat = [], {}
+    cases, stat, panics = [], {}, {}
     for line in p.stdout.split("\n"):
         if line.startswith("CASE "):
             _, idx, nops, term = line.split(" ", 3)
             cases.append((int(idx), int(nops), term))
-        elif line.startswith("STAT "):
-            stat = json.loads(line[5:])
+        elif line.startswith("PANIC "):
+            _, idx, step, msg = (line.split(" ", 3) + [""])[:4]
+            panics[int(idx)] = (int(step), msg)
+        elif line.startswith("STAT ") or line.startswith("STAT2 "):
+            stat.update(json.loads(line.split(" ", 1)[1]))
     if p.returncode != 0:
         raise HarnessCrash(p.returncode, p.stdout[-3000:], p.stderr[-6000:], cases, stat)
+    stat["_panics"] = panics
     return cases, stat
 
 
